@@ -29,8 +29,21 @@ def generate(rng: random.Random, tier: str):
                 yield c
             for _ in range(8 if quick else 40):
                 st = S.adversarial_step(rng, g, doc, docs)
-                from prosemirror.transform import AttrStep
                 yield S.apply_case(fam, doc, st, True, "primitive")[0]
+        # mark-heavy documents: histories of mark operations (the inverse of a mark step is only exact
+        # because of how add_mark / remove_mark plan their steps), and node-mark steps on marked nodes
+        from prosemirror.transform import Transform
+        for _ in range(25 if quick else 300):
+            d = S.marky_doc(rng, g)
+            tr = Transform(d)
+            ops = []
+            for _ in range(rng.randint(1, 4)):
+                try:
+                    name, args = S.do_op(rng, g, tr, docs, rng.choice(["add_mark", "remove_mark", "add_mark", "add_node_mark", "remove_node_mark"]))
+                    ops.append([name, args, "ok"])
+                except Exception as e:  # noqa: BLE001
+                    ops.append(["?", {}, type(e).__name__])
+            yield S.history_case(fam, tr.before, tr.steps, tr.doc, "mark-history", ops)
 
 
 def rebuild(desc):
